@@ -428,7 +428,26 @@ class CallMixin:
     def bi_list(self, args, kwargs, node, st):
         if not args:
             return self.new_list(st, [])
-        return self.new_list(st, self.concrete_items(args[0], st))
+        v = args[0]
+        if isinstance(v, Ref) and isinstance(st.heap[v.oid], ArrObj) and st.heap[v.oid].items is None \
+                and st.heap[v.oid].shape is None and st.heap[v.oid].pykind == 'list':
+            # list(xs) of a list of symbolic length: a new list object with the same elements
+            oid = st.new_oid('L')
+            st.heap[oid] = st.heap[v.oid].clone()
+            return Ref(oid)
+        return self.new_list(st, self.concrete_items(v, st))
+
+    def bi_divmod(self, args, kwargs, node, st):
+        a, b = self.need_num(args[0], node), self.need_num(args[1], node)
+        if is_cint(a) and is_cint(b):
+            if b == 0:
+                self.oblige('div0', False, st, node, 'divmod by zero')
+                raise PathEnd()
+            return divmod(a, b)
+        self.oblige('div0', zint(b) != 0, st, node, 'divmod by zero')
+        if not self.is_feasible(st, zint(b) <= 0):
+            return (zint(a) / zint(b), zint(a) % zint(b))      # floor division for a positive divisor (SMT-LIB div / mod)
+        raise Unsupported('divmod with a divisor that may be negative')
 
     def bi_print(self, args, kwargs, node, st):
         return None
@@ -536,6 +555,66 @@ class CallMixin:
 
     me_info = me_warning = me_error = me_debug
 
+    # ------------------------------------------------------------------ multiprocessing.Pool (assumed library contract, A3)
+    def _pool_results(self, recv, args, kwargs, node, st, ordered):
+        """Pool.map / imap (ordered=True): a list R with len(R) == len(xs) and R[k] == fn(xs[k]) for every k -- every item
+        exactly once, results in the order of the items.  imap_unordered (ordered=False): the documentation promises the same
+        results `in arbitrary order`; modelled as: len(R) == len(xs) and every R[k] is fn(xs[q]) for some q (which q is not
+        known).  fn is called once on an arbitrary item xs[q], 0 <= q < len(xs): its preconditions are proved for every item,
+        its result term is generalised over q (fn is a function of its argument: dtw.distance#value)."""
+        from .omp import consts_of
+        if not isinstance(recv, PoolV) or len(args) < 2:
+            raise Unsupported('Pool method call')
+        fn, xs = args[0], args[1]
+        seq = self.seq_of(xs, st, node)
+        if self.mode == 'run':
+            items = seq.items if seq.items is not None else [seq.get(k) for k in range(seq.length)]
+            res = [self.call(fn, [x], {}, node, st) for x in items]
+            return self.new_list(st, res)      # (for imap_unordered: the in-order completion, one of the legal ones)
+        n = seq.length
+        import re
+        from .state import _fresh
+        before = consts_of(list(st.pc))
+        fmark = next(_fresh)
+        q = fresh('pool_q', IntS)
+        mark = len(st.pc)
+        st.assume(z3.And(q >= 0, q < zint(n)))
+        item = seq.get(q, st) if getattr(seq, 'kind', '') == 'any' and seq.items is None else seq.get(q)
+        r = self.call(fn, [item], {}, node, st)
+        if not (is_z3(r) and r.sort() == Val):
+            raise Unsupported('Pool.map over a function that does not return a float')
+        local = st.pc[mark:]
+        del st.pc[mark:]
+        R = fresh('pool_res', z3.ArraySort(IntS, Val))
+        # symbols created by the call itself (the callee's result and ghost values): fresh per item, hence bound inside the
+        # quantified fact; everything else (parameters, earlier results) is the caller's and stays free
+        def created_here(nme):
+            m = re.search(r'!(\d+)$', nme)
+            return nme.startswith('ret_') or (m is not None and int(m.group(1)) > fmark)
+        new_syms = [v for nme, v in consts_of(local + [r]).items()
+                    if nme not in before and v.get_id() != q.get_id() and created_here(nme)]
+        body = z3.And(*(list(local) + [z3.Select(R, q if ordered else fresh('pool_k', IntS)) == r]))
+        if ordered:
+            inner = z3.Exists(new_syms, body) if new_syms else body
+            fact = z3.ForAll([q], z3.Implies(z3.And(q >= 0, q < zint(n)), inner), patterns=[z3.Select(R, q)])
+            # the range hypothesis is part of `local`; state it outside as the guard
+        else:
+            k = fresh('pool_k', IntS)
+            body = z3.And(*(list(local) + [z3.Select(R, k) == r]))
+            fact = z3.ForAll([k], z3.Implies(z3.And(k >= 0, k < zint(n)), z3.Exists([q] + new_syms, body)), patterns=[z3.Select(R, k)])
+        st.assume(fact)
+        oid = st.new_oid('L')
+        st.heap[oid] = ArrObj('val', arr=R, length=n, pykind='list')
+        return Ref(oid)
+
+    def me_pool_map(self, recv, args, kwargs, node, st):
+        return self._pool_results(recv, args, kwargs, node, st, True)
+
+    me_pool_imap = me_pool_map
+
+    def me_pool_imap_unordered(self, recv, args, kwargs, node, st):
+        return self._pool_results(recv, args, kwargs, node, st, False)
+
     # ------------------------------------------------------------------ repository functions
     def bind_args(self, finfo, args, kwargs, node, st):
         """Python/C argument binding to parameter names (defaults evaluated in module scope)."""
@@ -589,6 +668,10 @@ class CallMixin:
             self.frames.pop()
 
     def call_repo(self, name, args, kwargs, node, st):
+        from .libmodels import REPO_MODELS
+        if name in REPO_MODELS:
+            self.notes.add('assumed contract on a repository helper: %s -- %s' % (name, REPO_MODELS[name][1]))
+            return REPO_MODELS[name][0](self, args, kwargs, node, st)
         finfo = self.program.function(name)
         top = self.frames[0].contract
         view = getattr(top, 'callee_views', None) or {}
